@@ -213,6 +213,15 @@ func latticeFor(fn *fnSpec, param string) []badValue {
 			add("peer-entry-nil-elgamal", c(func(d *cmp.Config, b *Params) { d.Public[peerOf(b)].ElGamal = nil }))
 			add("peer-entry-nil-paillier", c(func(d *cmp.Config, b *Params) { d.Public[peerOf(b)].Paillier = nil }))
 			add("peer-entry-nil-pedersen", c(func(d *cmp.Config, b *Params) { d.Public[peerOf(b)].Pedersen = nil }))
+			// the holder's OWN public record, field by field (a validation that treats the own record apart may
+			// forget the fields it does not compare with a secret), and degenerate points in either record
+			add("own-entry-nil-ecdsa", c(func(d *cmp.Config, b *Params) { d.Public[d.ID].ECDSA = nil }))
+			add("own-entry-nil-elgamal", c(func(d *cmp.Config, b *Params) { d.Public[d.ID].ElGamal = nil }))
+			add("own-entry-nil-paillier", c(func(d *cmp.Config, b *Params) { d.Public[d.ID].Paillier = nil }))
+			add("own-entry-nil-pedersen", c(func(d *cmp.Config, b *Params) { d.Public[d.ID].Pedersen = nil }))
+			add("own-entry-identity-elgamal", c(func(d *cmp.Config, b *Params) { d.Public[d.ID].ElGamal = group.NewPoint() }))
+			add("peer-entry-identity-elgamal", c(func(d *cmp.Config, b *Params) { d.Public[peerOf(b)].ElGamal = group.NewPoint() }))
+			add("peer-entry-identity-ecdsa", c(func(d *cmp.Config, b *Params) { d.Public[peerOf(b)].ECDSA = group.NewPoint() }))
 			add("own-id-empty", c(func(d *cmp.Config, b *Params) { d.ID = "" }))
 			add("own-id-foreign", c(func(d *cmp.Config, b *Params) { d.ID = foreign }))
 			add("threshold=-1", c(func(d *cmp.Config, b *Params) { d.Threshold = -1 }))
